@@ -171,6 +171,8 @@ impl OpResult {
 pub type Keys<V> = Arc<Vec<(<V as Variant>::Sk, <V as Variant>::Pk)>>;
 
 fn thread_body<V: Variant>(ops: Vec<Op>, keys: Keys<V>, h: Rc<Handle>) -> Vec<OpResult> {
+    // in a "deep" build every function entry of the code under test is a yield point
+    let _deep = crate::deep::install(&h);
     let mut out = Vec::with_capacity(ops.len());
     for op in ops.iter() {
         h.set_phase(0);
@@ -214,6 +216,9 @@ fn thread_body<V: Variant>(ops: Vec<Op>, keys: Keys<V>, h: Rc<Handle>) -> Vec<Op
             }
         };
         out.push(r);
+    }
+    if std::env::var("VERIF_DEEP_DEBUG").is_ok() {
+        eprintln!("thread {} ops {} function entries (all, counted) {:?}", h.tid, ops.len(), crate::deep::entries());
     }
     out
 }
